@@ -266,7 +266,18 @@ def run_network(c, rng, spec, wn, narrow):
     # controls and rules that change a junction's minimum / required pressure while the run is under way (the hydraulic model
     # registers an updater for both attributes); None falls back to the global option
     changes = []
-    if not narrow and rng.random() < 0.6:
+    # a junction cut off from every source for a while and re-connected (side stream seeded by the case): a parameter control that
+    # fires while its junction is isolated must be in force when the junction comes back
+    import random as _random
+    side = _random.Random(c.index * 32452843 + len(spec['junctions']) * 7 + len(spec['pipes']))
+    iso = []
+    if not narrow and side.random() < 0.4:
+        iso = [x for x in gnet.add_isolation_schedule(spec, side, with_leak=0.0)
+               if x['open'] is not None and x['open'] <= spec['options']['duration'] and x['open'] - x['close'] >= 2]
+        wn = gnet.build(spec)
+        if iso:
+            c.count('runs_with_isolation_schedule')
+    if not narrow and (rng.random() < 0.6 or iso):
         from wntr.network import controls as ctl
         o_ = spec['options']
         hyd_, dur_ = o_['hydraulic_timestep'], o_['duration']
@@ -279,6 +290,10 @@ def run_network(c, rng, spec, wn, narrow):
         wn.reset_initial_values()
         for k in range(rng.randint(1, 3)):
             j = rng.choice(spec['junctions'])
+            during = None
+            if iso and k == 0:
+                j = [x for x in spec['junctions'] if x['name'] == iso[0]['junction']][0]
+                during = iso[0]['close'] + max(1, (iso[0]['open'] - iso[0]['close']) // 2)
             pmin0, preq0, _ = params_of(spec, j)
             attr = rng.choice(['required_pressure', 'required_pressure', 'minimum_pressure'])
             p_seen = float(P0[j['name']].mean())
@@ -295,8 +310,11 @@ def run_network(c, rng, spec, wn, narrow):
             if any(ch['junction'] == j['name'] for ch in changes):
                 continue        # one change per junction keeps the expected parameters unambiguous
             t_ = hyd_ * rng.randint(1, max(1, dur_ // hyd_)) + rng.choice([0, 0, 0, hyd_ // 2])
+            if during is not None:
+                t_ = during
+                c.count('parameter_controls_fired_while_isolated')
             act = ctl.ControlAction(wn.get_node(j['name']), attr, val)
-            if rng.random() < 0.5:
+            if rng.random() < 0.5 or during is not None:
                 wn.add_control('pdd_change_%d' % k, ctl.Control(ctl.SimTimeCondition(wn, '=', t_), act))
             else:
                 wn.add_control('pdd_change_%d' % k, ctl.Rule(ctl.SimTimeCondition(wn, '>=', t_), [act], priority=3))
